@@ -102,6 +102,12 @@ func (m *CacheMon) Step(w *World, _ string) {
 			seen[sub.Namespace] = true
 		}
 	}
+	// a get request in flight uses the resource: its event subscription is kept
+	for _, r := range w.MQ.Pending() {
+		if strings.HasPrefix(r.Subject, "get.") && !r.TooLong && w.MQ.Subscribed("event."+r.Subject[4:]) == nil {
+			w.Fail("C09", "get-outlives-subscription", "%s is in flight but event.%s is no longer subscribed", r.CSubject, w.Canon(r.Subject[4:]))
+		}
+	}
 	snap := w.CacheSnaps()
 	quiet := w.internalQuiet()
 	pend := map[string]int{}
@@ -162,8 +168,16 @@ func (m *CacheMon) Step(w *World, _ string) {
 			w.Fail("C09", "cached-without-subscription", "cache entry %s holds a requested/loaded resource without an event subscription", name)
 		}
 		if quiet && !e.Locked && e.QueueLen == 0 {
-			if int(e.Count) != subs+pend[e.Name] {
-				w.Fail("C09", "count-mismatch", "cache entry %s: use count %d but %d subscribers + %d requests in flight", name, e.Count, subs, pend[e.Name])
+			// a re-fetch after a system reset is an in-flight request too, from the
+			// moment the reset is handled (it may still wait in the reset throttle)
+			refetch := 0
+			for _, r := range e.Resources {
+				if r.Resetting {
+					refetch++
+				}
+			}
+			if int(e.Count) != subs+pend[e.Name]+refetch {
+				w.Fail("C09", "count-mismatch", "cache entry %s: use count %d but %d subscribers + %d requests in flight", name, e.Count, subs, pend[e.Name]+refetch)
 			}
 			// every subscriber the cache lists is a live connection subscription and vice versa
 			getPending := false
